@@ -4,7 +4,7 @@ E3-pure, exhaustive on small lattices.  Reference: ref/c20_exact.py (fractions.F
 
  1 find_intersections / Equilibrium.wallIntersection: every ordered pair of distinct points
    of the lattice {0, 1/2, ..., 4}^2 (thorough: {0, 1/4, ..., 4}^2) as a segment, against
-   each of 12 closed walls, in the given orientation and with R and Z swapped; the same
+   each of 13 closed walls, in the given orientation and with R and Z swapped; the same
    again with the whole configuration moved by one of eight pre-declared irrational offsets
    (VERIF_SEED), so that float rounding and not only exact ties is exercised.
  2 closest_approach: lattice points x lattice segments.
@@ -59,6 +59,10 @@ WALLS = {
     "star": [(0, 0), (2, 1), (4, 0), (3, 2), (4, 4), (2, 3), (0, 4), (1, 2)],
     "diamond": [(2, 0), (4, 2), (2, 4), (0, 2)],
     "tilted_square": [(0, 1), (3, 0), (4, 3), (1, 4)],
+    # tips strictly inside the lattice, each tip the extreme (in the dominant coordinate) of
+    # both its edges, both edges of the same slope class
+    "four_spikes": [(3.5, 2), (2.5, 2.5), (2, 3.5), (1.5, 2.5), (0.5, 2), (1.5, 1.5), (2, 0.5),
+                    (2.5, 1.5)],
 }
 WALL_NAMES = list(WALLS)
 
@@ -608,7 +612,7 @@ def run(ctx):
     ctx.set("area_tolerance", AREA_TOL)
     ctx.set("distinct_nontrivial", sw["judged_with_crossing"] + it["intersect_true"]
             + totals["closest"]["closest_nonzero"] + totals["area"]["orientation_judged"])
-    ctx.set("rule", "segments: every ordered pair of distinct points of the lattice (%d points) x 12 "
+    ctx.set("rule", "segments: every ordered pair of distinct points of the lattice (%d points) x 13 "
             "walls x {as given, R<->Z swapped} x {base lattice, base + seed offset}; each "
             "configuration is classified exactly (Fractions); distinct by construction; non-trivial = "
             "judged (not degenerate) and the segment crosses the wall at least once.  "
